@@ -48,7 +48,7 @@ class VttCue:
     center = "center"
     right = "right"
 
-  _EOL_SEQ_RE = re.compile(r"\n{2,}")
+  _EOL_SEQ_RE = re.compile(r"(?:\r\n|\r|\n){2,}")
 
   def __init__(self, identifier: Optional[int] = None):
     self._id: int = identifier
